@@ -168,6 +168,10 @@ class ClientAuthenticator:
                 self.sendAuthMessage(
                     b'ERROR ' + str(e).encode('unicode-escape'))
 
+        else:
+            # the mechanism in use has no challenge/response step
+            self.sendAuthMessage(b'ERROR')
+
     def _auth_ERROR(self, line):
         if self.guid is not None:
             # OK was already received: this ERROR answers NEGOTIATE_UNIX_FD.
